@@ -100,7 +100,7 @@ def run(ctx):
         e = W.ev(fnp)
         FIN = flow.must_facts(fn, e)
         oks = ok_return_blocks(fn, e)
-        ctx.check("wellformed-gate", "%s/single-ok-return" % v, len(oks) == 1, "one Ok return", "%d Ok returns in %s" % (len(oks), fnp), ctx.loc(fn))
+        ctx.check("wellformed-gate", "%s/ok-returns-found" % v, len(oks) >= 1, "%d Ok return(s); every one is gated below" % len(oks), "anchor-missing: no Ok return found in %s" % fnp, ctx.loc(fn))
         for (bb, i, term) in oks:
             rels = flow.rel_facts_at(FIN, bb)
             payload = term[2][0]
